@@ -21,10 +21,18 @@ def newline_free(ex, st, args):
 CONTENT = "(g_raw[k][:-1] if g_raw[k].endswith('\\n') else g_raw[k])"
 ENDS_NL = "(len(g_raw) == 0 or g_raw[len(g_raw) - 1].endswith('\\n'))"
 
+# the document is opened as strict utf-8 text with universal newlines: a file that cannot be decoded must surface as an
+# error (C15), never be silently altered (errors='replace'/'ignore') and `newline=` must not change what a line is
+OPEN_STRICT = Assumed("builtins.open[document]", params=["file", "mode", "buffering", "encoding", "errors", "newline"], returns="TextFile",
+                      fresh_result=True, raises=[Raises("OSError")], pure=True,
+                      requires=["errors is None or errors == 'strict'", "newline is None", "encoding == 'utf-8'",
+                                "mode is None or mode == 'r' or mode == 'rt'"],
+                      why="open() returns a file object or raises OSError; the file system is not modelled")
+
 register(Contract(
-    key=FSP + "__init__", properties=["C14", "C16"],
+    key=FSP + "__init__", properties=["C14", "C16", "C15", "C05", "C07"],
     ghost={"g_raw": "List[str]"},
-    calls={"file_to_parse.readlines": ("TextFile.readlines", ["g_raw = result"])},
+    calls={"file_to_parse.readlines": ("TextFile.readlines", ["g_raw = result"]), "open": OPEN_STRICT},
     ensures=["self.__read_index == 0",
              f"self.__did_final_line_end_with_newline == {ENDS_NL}",
              f"len({LINES}) == len(g_raw) + (1 if {ENDS_NL} else 0)",
@@ -53,3 +61,42 @@ register(Contract(
     key=FSP + "reset_to_start", properties=["C14"],
     ensures=["self.__read_index == 0"], modifies=["self.__read_index"],
 ))
+
+
+# ---------------------------------------------------------------------------------------------------------------
+# Conformance battery (used ONLY when the verifier cannot decide FileSourceProvider.__init__, e.g. after a rewrite that
+# leaves the subset): the postcondition above, evaluated natively against readlines() of the same file.
+from pyvc import replay as _rp  # noqa: E402
+
+_FSP_BATTERY = r'''
+import os, sys, tempfile
+from pymarkdown.general.source_providers import FileSourceProvider
+CASES = ["", "\n", "a", "a\n", "a\nb", "a\n\nb\n", "a\x0cb\nc\n", "a\x0bb\n", "a\x1cb\x1dc\x1ed\n", "a\x85b\n",
+         "a b c\n", "a\r\nb\rc\n", "\n\n", " \n\t", "a\n\x0c", "a\x0c"]
+bad = []
+for text in CASES:
+    fd, name = tempfile.mkstemp(suffix=".md"); os.close(fd)
+    try:
+        with open(name, "wb") as f: f.write(text.encode("utf-8"))
+        with open(name, encoding="utf-8") as f: g_raw = f.readlines()
+        ends_nl = len(g_raw) == 0 or g_raw[-1].endswith("\n")
+        want = [(r[:-1] if r.endswith("\n") else r) for r in g_raw] + ([""] if ends_nl else [])
+        p = FileSourceProvider(name)
+        got = []
+        while True:
+            line = p.get_next_line()
+            if line is None: break
+            got.append(line)
+        if got != want or p.did_final_line_end_with_newline != ends_nl:
+            bad.append((text, want, got, ends_nl, p.did_final_line_end_with_newline))
+    finally:
+        os.remove(name)
+for b in bad:
+    print("file content %r: expected lines %r, provider delivered %r (ends_nl expected %r, got %r)" % b)
+sys.exit(1 if bad else 0)
+'''
+
+
+@_rp.battery(FSP + "__init__")
+def _fsp_battery():
+    return _rp.run_script(_FSP_BATTERY, "the provider delivers readlines() of the file, each line without its newline, plus '' iff the text ends with a newline")
